@@ -126,7 +126,14 @@ EvBegin ==   \* begin events carry no state change
   /\ l <= Len(Trace) /\ Rec.e \in {"existsB", "fetchB", "pushB"}
   /\ UNCHANGED vars
 
-EvCancel == IsEv("cancel") /\ ExtCancel
+\* the caller's cancellation lands after the last storage operation returned
+\* (inside the model's final atomic step): syncutil.Go still reports it
+LateCancel ==
+  /\ ~extc /\ Terminated
+  /\ extc' = TRUE
+  /\ UNCHANGED <<succ, sseq, dst, st, sem, pc, holds, res, nxt, cancelled, owner, faults, fired>>
+
+EvCancel == IsEv("cancel") /\ (ExtCancel \/ LateCancel)
 
 EvRet ==
   /\ IsEv("ret")
